@@ -18,7 +18,7 @@ def step (_ : Unit) (fields : List String) (impl : String) : Unit × Reply :=
       let c : Case := ⟨i, f, q⟩
       let m := kvs impl
       let o : Obs := ⟨nat m "pings", nat m "closes", (m.lookup "returned") == some "true", nat m "afterquit",
-                      nat m "afterret", nat m "runms"⟩
+                      nat m "afterret", nat m "runms", nat m "quitlag"⟩
       let ok := i > 0 && holds c o
       -- the model is nondeterministic in time: agreement = the observed run is one the model allows
       ((), ⟨"accepted-by-model=" ++ boolStr ok, ok, true, ok, "-"⟩)
